@@ -393,6 +393,8 @@ class Driver(object):
             k.child_exit(a[1], a[2])
         elif kind == 'unknown':
             k.unknown_zombie(a[1])
+        elif kind == 'jobstop':
+            k.child_jobstop(a[1])       # monitor-judged scripts only: nothing may happen to the process
         elif kind == 'signal':
             self.options.signal_receiver.receive(a[1], None)
         elif kind == 'poll':
